@@ -219,13 +219,18 @@ def mixed_task(t, res):
     seq = [x for k in range(max(map(len, per))) for x in (p[k] for p in per if k < len(p))]
     if t["order"] == "reversed":
         seq = seq[::-1]
+    sub = type(res)()
     for (r, c, bits) in seq:
         adj = R.adjacency(R.graph_from_bits(r, c, bits))
         cells = R.cells(r, c)
         sols = [[cells[0]]] + R.all_shortest_paths(adj, cells[0], cells[-1])[:2] + R.all_shortest_paths(adj, cells[-1], cells[1])[:1]
         for p in sols:
-            check_process(r, c, bits, p, res, adj)
+            check_process(r, c, bits, p, sub, adj)
             res.count("mixed_sequence_mazes")
+    res.evaluations += sub.evaluations
+    res.distinct |= sub.distinct
+    for f in sub.fails:  # own keys: must not be shadowed by a same-key failure of an ordinary task in a poisoned worker
+        res.fail(f["key"] + "|in_mixed_shape_sequence", f"shapes {t['group']} interleaved ({t['order']}) in one fresh interpreter: " + f["what"], f["replay"])
 
 
 def structured_task(t, res):
